@@ -400,7 +400,8 @@ fn main() {
             for rv in recs {
                 for r in rv {
                     writeln!(w, "{}", serde_json::to_string(&r).unwrap()).unwrap();
-                    if r["kind"] != "aggsum" {
+                    // (a pair whose second half is a bare failure notice carries no ledger to validate)
+                    if r["kind"] != "aggsum" && r["b"]["sec"] != "*" {
                         writeln!(ws, "{}", serde_json::to_string(&r["a"]).unwrap()).unwrap();
                         writeln!(ws, "{}", serde_json::to_string(&r["b"]).unwrap()).unwrap();
                     }
